@@ -2696,6 +2696,10 @@ class PiecewiseConvex:
         other_abs = abs(other)
 
         pieces = [piece*other_abs for piece in self.pieces]
+        if other == 0:
+            # the zero function: one piece is enough, and a function with
+            # one piece is affine (see _affine)
+            pieces = pieces[:1]
 
         return PiecewiseConvex(self.model, pieces, self.sign*other_sign, self.add_sign)
 
@@ -2703,9 +2707,17 @@ class PiecewiseConvex:
 
         return self.__mul__(other)
 
+    def _affine(self):
+        # -max{p} = max{-p}: a 'concave' function with a single piece is
+        # affine and may be used as a convex one
+        if self.sign == -1 and len(self.pieces) == 1:
+            return PiecewiseConvex(self.model, [-self.pieces[0]], 1,
+                                   self.add_sign)
+        return self
+
     def __le__(self, other):
 
-        left = self - other
+        left = (self - other)._affine()
         if left.sign == -1:
             raise ValueError('Nonconvex constraints.')
 
@@ -2715,7 +2727,7 @@ class PiecewiseConvex:
 
     def __ge__(self, other):
 
-        right = other - self
+        right = (other - self)._affine()
         if right.sign == -1:
             raise ValueError('Nonconvex constraints.')
 
